@@ -29,6 +29,9 @@ def run(rep):
     if rep.tier == "thorough":
         from .. import apalache
         apalache.shape_lemmas(rep)
+        from .. import proofs
+        proofs.attach(rep, "HelpersProofs")
+        proofs.attach(rep)       # TLAPS: the extension maps / helper transcriptions of Idx.tla for all sizes
     fnd = Findings()
     res, table = dwtmodel.run_ops(rep, rep.tier, ["AnalysisOK", "AnalysisDevExact"])
     calls = dwtmodel.run_calls(rep, rep.tier, ["FwdShapesOK", "FwdRaiseOK", "FwdChain"], {"fwd"})
